@@ -406,3 +406,7 @@ Theorem maxF_minF_laws l m :
   (Forall fin l -> minF l = Ok m -> In m l /\ forall x, In x l -> rv m <= rv x) /\
   (maxF l = Err <-> l = []) /\ (minF l = Err <-> l = []).
 Proof. exact (conj (maxF_spec l m) (conj (minF_spec l m) (conj (maxF_err l) (minF_err l)))). Qed.
+
+(* the 112-digit value of pi used by the run-time degree/radian judge (VecF.pi112) *)
+Theorem pi112_close : Rabs (IZR 16312081666030376401667486162748272 / IZR (2 ^ 112) - PI) <= / IZR (2 ^ 110).
+Proof. interval with (i_prec 140). Qed.
